@@ -140,7 +140,10 @@ Definition raw_item (v : bytes) : bytes := C44_ITEM_VERSION :: varuint (N.of_nat
 Definition undeployed (s : state) (a : bytes) : bool :=
   match get_contract s a with (None, false) => true | _ => false end.
 
-(** checkStorageContext: item != nil *)
+(** what checkStorageContext is meant to test: item != nil. AS WRITTEN it returns
+    errors.NewDetailErr(err, ...) when `err != nil || item == nil`, and NewDetailErr(nil, ...) is
+    nil: a missing or destroyed contract passes. [exec false] is the code as it is, [exec true]
+    the code with the test effective (Storage.Put / Storage.Delete only). *)
 Definition context_ok (s : state) (a : bytes) : bool :=
   match get_contract s a with (Some _, _) => true | _ => false end.
 
@@ -156,9 +159,10 @@ Inductive cop :=
 | CPut (cur k v : bytes)                (* Storage.Put with the context of [cur] *)
 | CDelete (cur k : bytes)               (* Storage.Delete *)
 | CAddDestroyed (a : bytes)             (* global_params AddDestroyedContracts (operator only) *)
-| CRemoveDestroyed (a : bytes).         (* global_params RemoveDestroyedContracts (operator only) *)
+| CRemoveDestroyed (a : bytes)          (* global_params RemoveDestroyedContracts (operator only) *)
+| CCall (a : bytes).                    (* APPCALL a: NeoVmService.GetNeoContract(a) must find a record *)
 
-Definition exec (track h : N) (s : state) (o : cop) : res :=
+Definition exec (strict : bool) (track h : N) (s : state) (o : cop) : res :=
   match o with
   | CCreate a code =>
       match get_contract s a with
@@ -172,20 +176,21 @@ Definition exec (track h : N) (s : state) (o : cop) : res :=
   | CDestroy cur =>
       if context_ok s cur then of_loop (clean_contract_storage track h cur s) else Err Refused
   | CPut cur k v =>
-      if context_ok s cur then
+      if negb strict || context_ok s cur then
         if C44_MAX_STORAGE_KEY <? N.of_nat (length k) then Err Refused
         else Ok (cache_put ST_STORAGE (cur ++ k) (raw_item v) s)
       else Err Refused
   | CDelete cur k =>
-      if context_ok s cur then Ok (cache_delete ST_STORAGE (cur ++ k) s) else Err Refused
+      if negb strict || context_ok s cur then Ok (cache_delete ST_STORAGE (cur ++ k) s) else Err Refused
   | CAddDestroyed a => Ok (set_destroyed track h a s)
   | CRemoveDestroyed a => Ok (unset_destroyed track h a s)
+  | CCall a => if context_ok s a then Ok s else Err Refused
   end.
 
-Fixpoint exec_all (track h : N) (s : state) (ops : list cop) : res :=
+Fixpoint exec_all (strict : bool) (track h : N) (s : state) (ops : list cop) : res :=
   match ops with
   | [] => Ok s
-  | o :: r => match exec track h s o with Ok s1 => exec_all track h s1 r | e => e end
+  | o :: r => match exec strict track h s o with Ok s1 => exec_all strict track h s1 r | e => e end
   end.
 
 Inductive tx :=
@@ -199,7 +204,7 @@ Inductive outcome := Committed | Failed | NoFuel.
     refused; an existing record is kept; Commit. HandleInvokeTransaction: Commit only on success
     (the writes of a failed execution stay in the cache until the next Reset; they are dropped
     here at once, which is the same for every later observation). *)
-Definition run_tx (track h : N) (s : state) (t : tx) : state * outcome :=
+Definition run_tx (strict : bool) (track h : N) (s : state) (t : tx) : state * outcome :=
   let s0 := cache_reset s in
   match t with
   | TDeploy a code =>
@@ -209,7 +214,7 @@ Definition run_tx (track h : N) (s : state) (t : tx) : state * outcome :=
       | (Some _, false) => (cache_commit s0, Committed)
       end
   | TInvoke ops =>
-      match exec_all track h s0 ops with
+      match exec_all strict track h s0 ops with
       | Ok s1 => (cache_commit s1, Committed)
       | Err Refused => (s0, Failed)
       | Err OutOfFuel => (s0, NoFuel)
@@ -220,21 +225,21 @@ Definition run_tx (track h : N) (s : state) (t : tx) : state * outcome :=
     (OverlayDB.CommitTo + BatchCommit) and the next block starts with a fresh OverlayDB *)
 Record block := mkBlock { b_height : N; b_txs : list tx }.
 
-Fixpoint run_txs (track h : N) (s : state) (ts : list tx) : state * list outcome :=
+Fixpoint run_txs (strict : bool) (track h : N) (s : state) (ts : list tx) : state * list outcome :=
   match ts with
   | [] => (s, [])
-  | t :: r => let '(s1, o) := run_tx track h s t in
-              let '(s2, os) := run_txs track h s1 r in (s2, o :: os)
+  | t :: r => let '(s1, o) := run_tx strict track h s t in
+              let '(s2, os) := run_txs strict track h s1 r in (s2, o :: os)
   end.
 
-Definition run_block (track : N) (s : state) (b : block) : state * list outcome :=
-  let '(s1, os) := run_txs track (b_height b) s (b_txs b) in (overlay_reset (overlay_commit (cache_reset s1)), os).
+Definition run_block (strict : bool) (track : N) (s : state) (b : block) : state * list outcome :=
+  let '(s1, os) := run_txs strict track (b_height b) s (b_txs b) in (overlay_reset (overlay_commit (cache_reset s1)), os).
 
-Fixpoint run_chain (track : N) (s : state) (bs : list block) : state * list (list outcome) :=
+Fixpoint run_chain (strict : bool) (track : N) (s : state) (bs : list block) : state * list (list outcome) :=
   match bs with
   | [] => (s, [])
-  | b :: r => let '(s1, o) := run_block track s b in
-              let '(s2, os) := run_chain track s1 r in (s2, o :: os)
+  | b :: r => let '(s1, o) := run_block strict track s b in
+              let '(s2, os) := run_chain strict track s1 r in (s2, o :: os)
   end.
 
 (** * Well-formed inputs (Go type invariants: an address is [20]byte, slices hold bytes, a serialised
@@ -250,6 +255,7 @@ Definition cop_wf (o : cop) : bool :=
   | CDelete cur k => is_addr cur && wf_bytes k
   | CAddDestroyed a => is_addr a
   | CRemoveDestroyed a => is_addr a
+  | CCall a => is_addr a
   end.
 
 Definition tx_wf (t : tx) : bool :=
